@@ -48,7 +48,7 @@
  *   -Dpthread_cond_signal=mc_cond_signal -Dpthread_cond_broadcast=mc_cond_broadcast
  *   -Dpthread_mutex_init=mc_mutex_init -Dpthread_mutex_destroy=mc_mutex_destroy
  *   -Dpthread_cond_init=mc_cond_init -Dpthread_cond_destroy=mc_cond_destroy
- *   -Dpthread_create=mc_thread_create -Dpthread_join=mc_thread_join
+ *   -Dpthread_create=mc_thread_create_ut -Dpthread_join=mc_thread_join
  * <pthread.h>'s own prototypes are renamed consistently, so this header only re-declares them.
  * sched.c itself is compiled WITHOUT the renames (it needs the real pthread_create/join).
  *
@@ -143,6 +143,7 @@ int mc_cond_timedwait(pthread_cond_t* c, pthread_mutex_t* m, const struct timesp
 int mc_cond_signal(pthread_cond_t* c);
 int mc_cond_broadcast(pthread_cond_t* c);
 int mc_thread_create(pthread_t* t, const pthread_attr_t* a, void* (*fn)(void*), void* arg);
+int mc_thread_create_ut(pthread_t* t, const pthread_attr_t* a, void* (*fn)(void*), void* arg);   /* + a scheduling point after the creation */
 int mc_thread_join(pthread_t t, void** ret);
 void mc_yield(void);
 int mc_self(void);                 /* model thread id: 0 = harness main, then in creation order */
